@@ -135,11 +135,12 @@ theorem code_matches_model :
       "defer c.Unlock()",
       "sw, ok := c.sws[svcName]",
       "if !ok { return }",
+      "if newCfg == nil { return }",
       "oldCfg := sw.Config",
       "sw.Config = newCfg",
       "if sw.Endpoints == nil { return }",
       "if oldCfg != nil { c.emitSvcConfigEvent(svcName, newCfg) }",
-      "if oldCfg == nil || oldCfg.Validate() != nil { c.emitSvcAddEvent(sw) }"] ∧
+      "c.emitSvcAddEvent(sw)"] ∧
     Gen.Conf.handleSvcEndpointUpdate =
       ["c.Lock()",
       "defer c.Unlock()",
@@ -157,7 +158,9 @@ theorem code_matches_model :
       ["for i := 0; i < len(endpoints); i++ { if !endpoints[i].Address.Equal(endpoint.Address) { continue } return i, true }",
       "return 0, false"] ∧
     Gen.Conf.emitSvcAddEvent =
-      ["evt := &SvcAddEvent{ Name: sw.Service.Name, Config: sw.Config, Endpoints: sw.Endpoints, }",
+      ["endpoints := sw.Endpoints",
+      "if endpoints != nil { endpoints = append(make([]*service.Endpoint, 0, len(endpoints)), endpoints...) }",
+      "evt := &SvcAddEvent{ Name: sw.Service.Name, Config: sw.Config, Endpoints: endpoints, }",
       "c.evtCh <- evt"] ∧
     Gen.Conf.emitSvcEndpointEvent =
       ["if len(added) == 0 && len(removed) == 0 { return }",
